@@ -268,6 +268,8 @@ type runResult struct {
 	SetRev     map[string]int64 // every ObjectSet that ever reported a revision number
 	// TeardownDryRun409: a 409 was injected into the dry-run preflight of a teardown pass
 	TeardownDryRun409 int
+	// DeploymentArchivalFaults: faults at the deployment controller's archive update / pruning delete
+	DeploymentArchivalFaults int
 }
 
 func workload(e *scen.Env, sc *scenario) {
@@ -347,6 +349,8 @@ type counter struct {
 	// faults that hit the dry-run preflight of a teardown (the owner of the pass is archived or being deleted)
 	teardownDryRun409 int
 	writes            []int // request numbers of (non dry-run) writes
+	// deploymentArchivalFaults: faults that hit the ObjectDeployment controller's archive update / pruning delete of a revision
+	deploymentArchivalFaults int
 }
 
 func (c *counter) OnRequest(_ *scen.Env, req *simkube.Request) {
@@ -354,6 +358,9 @@ func (c *counter) OnRequest(_ *scen.Env, req *simkube.Request) {
 		c.n++
 		if req.IsWrite() && !req.DryRun {
 			c.writes = append(c.writes, c.n)
+		}
+		if req.Fault != "" && strings.HasSuffix(req.Pass.Actor, "ObjectDeployment") && strings.HasSuffix(req.GVK.Kind, "ObjectSet") && (req.Verb == "update" || req.Verb == "delete") {
+			c.deploymentArchivalFaults++
 		}
 		if req.Fault == "error" && req.DryRun && req.Verb == "patch" && apierrors.IsConflict(req.Err) {
 			if ow := scen.OwnerOfPass(req.Pass); ow != nil && (ow.Archived || ow.Deleting) {
@@ -470,6 +477,7 @@ func execute(seed *rand.Rand, sc *scenario, ds []disturbance, extra ...scen.Moni
 	res.Requests = cnt.n
 	res.Writes = cnt.writes
 	res.TeardownDryRun409 = cnt.teardownDryRun409
+	res.DeploymentArchivalFaults = cnt.deploymentArchivalFaults
 	// at rest nothing changes any more, not even after a restart
 	before := e.W.Store.Seq()
 	e.W.Restart()
@@ -597,12 +605,27 @@ func runCase(c *vh.Ctx, i int) {
 			// teardownPhaseObject treats any violation as 'nothing to clean up' and skips the object for good
 			c.Violation("C10:teardown-skips-object-when-preflight-dry-run-gets-409", fmt.Sprintf("after %s (A = undisturbed, B = disturbed):\n    %s", kindsOf(), strings.Join(diff, "\n    ")), dump(p, rr, diff))
 			return
+		} else if len(diff) > 0 && rr.DeploymentArchivalFaults > 0 && onlySurplusArchivedRevisions(diff) {
+			// classified: the archive reconciler prunes history only in a pass that archives something (markObjectSetsForArchival
+			// returns early otherwise); a pass interrupted between the archive update and the pruning is never made up for
+			c.Violation("C10:history-pruning-not-resumed-after-interrupted-archival", fmt.Sprintf("after %s (A = undisturbed, B = disturbed):\n    %s", kindsOf(), strings.Join(diff, "\n    ")), dump(p, rr, diff))
+			return
 		} else if len(diff) > 0 {
 			c.Violation("C10:end-state-differs-from-undisturbed-run:"+sc.Family+":"+firstKey(diff), fmt.Sprintf("after %s (A = undisturbed, B = disturbed):\n    %s", kindsOf(), strings.Join(diff, "\n    ")), dump(p, rr, diff))
 			return
 		}
 		c.Count("c10_end_states_equal", 1)
 	})
+}
+
+// onlySurplusArchivedRevisions: every difference is an archived revision that only the disturbed run still has.
+func onlySurplusArchivedRevisions(diff []string) bool {
+	for _, d := range diff {
+		if !strings.Contains(strings.SplitN(d, ":", 2)[0], "ObjectSet ") || !strings.Contains(d, "A: <nil>") || !strings.Contains(d, "B: map[archived:true") {
+			return false
+		}
+	}
+	return len(diff) > 0
 }
 
 // controllersOnly drops non-controller owner references from a projection.
